@@ -3,6 +3,7 @@ import SqlgrepModel.Lemmas.LexPos
 import SqlgrepModel.Lemmas.LexNear
 import SqlgrepModel.Lemmas.LexNearPiece
 import SqlgrepModel.Lemmas.LexTables
+import SqlgrepModel.Lemmas.FloatGrammar
 /-
 C14 — parsing is total: any text yields a statement or a located error — **tokenizer half**.
 (Imported by `Props/C14.lean`, which adds the parser half.)
@@ -189,6 +190,36 @@ theorem float_token_is_parseF64 (ext : Char → CharInfo) (st : St) (w : List Ch
       | some b => .run (st.add (.float b))
       | none => .fail ⟨st.line, st.col⟩ .floatConvert := rfl
 
+/-! ### what `f64::from_str` accepts: the grammar (L2)
+
+`DecFloat.parseF64` was documented by a grammar in a comment and proved only in its arithmetic half (`decToF64` rounds
+correctly). `Spec/FloatGrammar.lean` now formalises the grammar of Rust's `impl FromStr for f64` as inductive predicates
+with a denotation (`FloatGrammar.FloatD text v`), and `Lemmas/FloatGrammar.lean` proves `parseF64` sound and complete
+for it. (One known deviation from Rust, for texts of more than 65 536 digits only: Rust stops accumulating exponent
+digits at `0x10000`; see the header of `Lemmas/FloatGrammar.lean`.) -/
+
+/-- **from_str_grammar.** `DecFloat.parseF64 s` answers `Ok(b)` exactly when `s` is a `Float` of the grammar
+`Sign? ( 'inf' | 'infinity' | 'nan' | (Digit+ | Digit+ '.' Digit* | Digit* '.' Digit+) ('e' Sign? Digit+)? )` (words and
+`e` in any letter case) and `b` is the REAL of one of its denotations (`DecFloat.bitsOf`: the decimal
+`(-1)^neg · mant · 10^exp` rounded to nearest, ties to even, `inf` from the overflow threshold on; the infinities; Rust's
+NaN), and `Err` exactly when the grammar does not derive `s`; the REAL is a function of the text. -/
+theorem from_str_grammar (s : List Char) :
+    (∀ b, DecFloat.parseF64 s = some b ↔ ∃ v, FloatGrammar.FloatD s v ∧ DecFloat.bitsOf v = b) ∧
+    (DecFloat.parseF64 s = none ↔ ¬ ∃ v, FloatGrammar.FloatD s v) ∧
+    (∀ v v', FloatGrammar.FloatD s v → FloatGrammar.FloatD s v' → DecFloat.bitsOf v = DecFloat.bitsOf v') :=
+  ⟨DecFloat.parseF64_iff s, DecFloat.parseF64_none_iff s, fun _ _ h h' => DecFloat.FloatD.unique_bits h h'⟩
+
+/-- the REAL token of a number text with a fraction, by the grammar: the text of a `Float` becomes the token carrying the
+REAL of its denotation, any other text (`1.2e`, `1.e+`) is the located error `floatConvert` -/
+theorem float_token_by_grammar (ext : Char → CharInfo) (st : St) (w : List Char) :
+    (∀ v, FloatGrammar.FloatD w v → flushNumber (noNumberFacts ext) st w true = .run (st.add (.float (DecFloat.bitsOf v)))) ∧
+    ((¬ ∃ v, FloatGrammar.FloatD w v) → flushNumber (noNumberFacts ext) st w true = .fail ⟨st.line, st.col⟩ .floatConvert) := by
+  constructor
+  · intro v hv
+    rw [float_token_is_parseF64, (DecFloat.parseF64_iff w _).2 ⟨v, hv, rfl⟩]
+  · intro hn
+    rw [float_token_is_parseF64, (DecFloat.parseF64_none_iff w).2 hn]
+
 /-! ### non-vacuity and sharpness -/
 
 /-- the hypotheses of `int_out_of_range_is_error` are met by the smallest number that does not fit, and the largest that
@@ -214,5 +245,35 @@ example : extractNear Tables.asciiOnly ⟨0, 7⟩ "select 1.2.3 from t".toList =
 
 /-- a tab between the words is shown as a space: the excerpt reads like the piece, it is not always equal to it -/
 example : extractNear Tables.asciiOnly ⟨0, 3⟩ "ab\tcd ef".toList = .text "ab cd ef".toList := by decide
+
+/-- derivations in the `f64::from_str` grammar: `-12.50e+3` denotes `-1250 · 10^1`, `.5` denotes `5 · 10^-1`, `5.` denotes
+`5 · 10^0`, `iNf` is the infinity -/
+example : FloatGrammar.FloatD "-12.50e+3".toList (.dec true 1250 1) :=
+  .number (sg := ['-']) (body := "12.50e+3".toList) .minus
+    (FloatGrammar.NumberD.point (ip := ['1', '2']) (fp := ['5', '0']) (e := ['e', '+', '3']) (ev := 3) (by decide) (by decide)
+      (Or.inl (by decide)) (FloatGrammar.ExpD.some (sg := ['+']) (ds := ['3']) (neg := false) (Or.inl rfl) .plus (by decide)))
+example : FloatGrammar.FloatD ".5".toList (.dec false 5 (-1)) :=
+  .number (sg := []) (body := ".5".toList) .none
+    (FloatGrammar.NumberD.point (ip := []) (fp := ['5']) (e := []) (ev := 0) (by decide) (by decide) (Or.inr (by decide)) .none)
+example : FloatGrammar.FloatD "5.".toList (.dec false 5 0) :=
+  .number (sg := []) (body := "5.".toList) .none
+    (FloatGrammar.NumberD.point (ip := ['5']) (fp := []) (e := []) (ev := 0) (by decide) (by decide) (Or.inl (by decide)) .none)
+example : FloatGrammar.FloatD "+iNf".toList (.inf false) :=
+  .inf (sg := ['+']) (w := "iNf".toList) .plus
+    (.cons (Or.inl rfl) (.cons (Or.inr rfl) (.cons (Or.inl rfl) .nil)))
+-- … and what the function answers for them (by `from_str_grammar` these are the REALs of the denotations above)
+example : DecFloat.parseF64 "-12.50e+3".toList = some 0xc0c86a0000000000 ∧ DecFloat.bitsOf (.dec true 1250 1) = 0xc0c86a0000000000 := by
+  decide +kernel
+example : DecFloat.parseF64 ".5".toList = some 0x3fe0000000000000 ∧ DecFloat.parseF64 "5.".toList = some 0x4014000000000000
+    ∧ DecFloat.parseF64 "+iNf".toList = some 0x7ff0000000000000 ∧ DecFloat.parseF64 "-NAN".toList = some 0xfff8000000000000
+    ∧ DecFloat.parseF64 "InFiNiTy".toList = some 0x7ff0000000000000 ∧ DecFloat.parseF64 "1e400".toList = some 0x7ff0000000000000 := by
+  decide +kernel
+-- texts outside the grammar: `Err` (so, by `from_str_grammar`, no derivation exists)
+example : DecFloat.parseF64 "".toList = none ∧ DecFloat.parseF64 "-".toList = none ∧ DecFloat.parseF64 ".".toList = none
+    ∧ DecFloat.parseF64 "1e".toList = none ∧ DecFloat.parseF64 "1e+".toList = none ∧ DecFloat.parseF64 " 1".toList = none
+    ∧ DecFloat.parseF64 "1_0".toList = none ∧ DecFloat.parseF64 "0x10".toList = none ∧ DecFloat.parseF64 "infinit".toList = none
+    ∧ DecFloat.parseF64 "+-1".toList = none ∧ DecFloat.parseF64 "1.2.3".toList = none ∧ DecFloat.parseF64 "１".toList = none := by
+  decide +kernel
+example : ¬ ∃ v, FloatGrammar.FloatD "1e+".toList v := (from_str_grammar _).2.1.1 (by decide +kernel)
 
 end Sqlgrep.Props.C14Lex
